@@ -18,7 +18,8 @@ use datafusion_common::{DFSchema, ScalarValue};
 use datafusion_expr::interval_arithmetic::{Interval, NullableInterval};
 use datafusion_expr::simplify::SimplifyContext;
 use datafusion_expr::{Expr, ExprSchemable, Operator};
-use datafusion_optimizer::simplify_expressions::ExprSimplifier;
+use datafusion_expr::utils::{conjunction, split_conjunction_owned};
+use datafusion_optimizer::simplify_expressions::{ExprSimplifier, simplify_predicates};
 use serde_json::{Value, json};
 use std::collections::BTreeMap;
 use std::panic::{AssertUnwindSafe, catch_unwind};
@@ -318,6 +319,9 @@ struct Stats {
     simplify_errors: u64,
     physical: u64,
     physical_changed: u64,
+    predicates: u64,
+    predicates_changed: u64,
+    dataframe: u64,
 }
 
 pub fn main() {
@@ -339,6 +343,7 @@ pub fn main() {
             let (cases, header, env_udf, env_case) = (&cases, &header, &env_udf, &env_case);
             hs.push(s.spawn(move || {
                 let ctx = SessionContext::new();
+                let rt = tokio::runtime::Builder::new_current_thread().enable_all().build().unwrap();
                 let mut st = Stats::default();
                 let (mut results, mut events) = (vec![], vec![]);
                 let mut full: BTreeMap<String, RecordBatch> = BTreeMap::new();
@@ -482,7 +487,7 @@ pub fn main() {
                             Some(a) => {
                                 st.ast_ok += 1;
                                 r["ast"] = json!(true);
-                                events.push(json!({"ev": evid, "tbl": tname, "before": c["e"], "after": a, "nonnull": v.nonnull,
+                                events.push(json!({"ev": evid, "tbl": tname, "before": c["e"], "after": a, "nonnull": v.nonnull, "filt": false,
                                                    "guar": v.guar.iter().map(|(c, nk, lo, hi)| json!({"col": c, "nk": nk, "lo": lo, "hi": hi})).collect::<Vec<_>>()}));
                             }
                             None => {
@@ -495,7 +500,150 @@ pub fn main() {
                     // physical-expression simplifier (nullable schema, all rows): engine vs engine
                     let schema = full[tname].schema();
                     let dfschema = DFSchema::try_from(schema.as_ref().clone()).unwrap();
-                    if let Ok(Ok(pb)) = catch_unwind(AssertUnwindSafe(|| ctx.create_physical_expr(before_case.clone(), &dfschema))) {
+                    let no_ref_err = exp.iter().all(|x| *x != env_udf.errcode);
+                    let pb_full = catch_unwind(AssertUnwindSafe(|| ctx.create_physical_expr(before_case.clone(), &dfschema)));
+                    let cb_full: Option<Vec<Result<(i64, DataType), String>>> = match &pb_full {
+                        Ok(Ok(pb)) => Some(engine_column(pb, &full[tname], env_udf)),
+                        _ => None,
+                    };
+                    // simplify_predicates (used by the filter push-down rule on the conjuncts of a predicate): predicate
+                    // semantics — the set of rows for which the conjunction is TRUE must not change
+                    if c["k"] == "b" {
+                        let conj = split_conjunction_owned(before_case.clone());
+                        if conj.len() >= 2 {
+                            if let (Some(cb), Ok(Ok(out))) = (&cb_full, catch_unwind(AssertUnwindSafe(|| simplify_predicates(conj.clone())))) {
+                                st.predicates += 1;
+                                let after = conjunction(out.clone()).unwrap_or(datafusion_expr::lit(true));
+                                let evid = format!("{}-{}-pred", c["p"], c["id"]);
+                                let mut r = json!({"ev": evid, "id": c["id"], "p": c["p"], "variant": "simplify-predicates", "scope_rows": exp.len(),
+                                                   "after": format!("{after}"), "guar": [], "nonnull": [false, false, false, false]});
+                                if out.len() != conj.len() {
+                                    st.predicates_changed += 1;
+                                    r["changed"] = json!(true);
+                                }
+                                match catch_unwind(AssertUnwindSafe(|| ctx.create_physical_expr(after.clone(), &dfschema))) {
+                                    Ok(Ok(pa)) => {
+                                        let ca = engine_column(&pa, &full[tname], env_udf);
+                                        let mut diff_rows: Vec<Value> = vec![];
+                                        for row in 0..exp.len() {
+                                            if exp[row] == env_udf.errcode {
+                                                continue;
+                                            }
+                                            st.rows_compared += 1;
+                                            match (&cb[row], &ca[row]) {
+                                                (Ok((b, _)), Ok((a, _))) if (*b == 1) != (*a == 1) => {
+                                                    diff_rows.push(json!([row + 1, ast::show_code(*b, env_udf), ast::show_code(*a, env_udf)]))
+                                                }
+                                                (Ok((b, _)), Err(_)) => diff_rows.push(json!([row + 1, ast::show_code(*b, env_udf), "ERROR"])),
+                                                _ => {}
+                                            }
+                                        }
+                                        if !diff_rows.is_empty() {
+                                            r["engine_diff_count"] = json!(diff_rows.len());
+                                            r["engine_diffs"] = json!(diff_rows.iter().take(5).map(|d| json!({"table_row": d[0], "before": d[1], "after": d[2], "semantics": "row kept by the filter"})).collect::<Vec<_>>());
+                                            r["engine_diff_rows"] = json!(diff_rows);
+                                        }
+                                    }
+                                    Ok(Err(e)) => r["after_plan_error"] = json!(e.to_string()),
+                                    Err(p) => r["after_plan_error"] = json!(format!("PANIC: {}", panic_msg(p))),
+                                }
+                                if let Some(a) = from_expr(&after, &dfschema, env_udf, false) {
+                                    r["ast"] = json!(true);
+                                    events.push(json!({"ev": evid, "tbl": tname, "before": c["e"], "after": a, "nonnull": [false, false, false, false],
+                                                       "filt": true, "guar": []}));
+                                }
+                                results.push(r);
+                            }
+                        }
+                    }
+                    // the whole optimizer + physical planner: SELECT expr FROM t / SELECT * FROM t WHERE expr through the DataFrame API
+                    if let (true, Some(cb)) = (no_ref_err, &cb_full) {
+                        let mut keymap: std::collections::HashMap<Vec<i64>, usize> = std::collections::HashMap::new();
+                        for row in 0..exp.len() {
+                            keymap.insert((0..4).map(|cc| value_code(tv, cc, row, env_udf)).collect(), row);
+                        }
+                        let cols: Vec<Expr> = (1..=4).map(|i| datafusion_expr::col(format!("c{i}"))).collect();
+                        let mut modes: Vec<(&str, bool)> = vec![("dataframe-projection", false)];
+                        if c["k"] == "b" {
+                            modes.push(("dataframe-filter", true));
+                        }
+                        for (mode, is_filter) in modes {
+                            st.dataframe += 1;
+                            let evid = format!("{}-{}-{}", c["p"], c["id"], mode);
+                            let mut r = json!({"ev": evid, "id": c["id"], "p": c["p"], "variant": mode, "scope_rows": exp.len(), "guar": [], "nonnull": [false, false, false, false]});
+                            let batch = full[tname].clone();
+                            let bexpr = before.clone();
+                            let cols2 = cols.clone();
+                            let out: Result<Vec<RecordBatch>, String> = rt.block_on(async {
+                                let df = ctx.read_batch(batch).map_err(|e| e.to_string())?;
+                                let df = if is_filter {
+                                    df.filter(bexpr).map_err(|e| e.to_string())?.select(cols2).map_err(|e| e.to_string())?
+                                } else {
+                                    let mut sel = cols2;
+                                    sel.push(bexpr.alias("r"));
+                                    df.select(sel).map_err(|e| e.to_string())?
+                                };
+                                df.collect().await.map_err(|e| e.to_string())
+                            });
+                            let mut diff_rows: Vec<Value> = vec![];
+                            match out {
+                                Err(e) => {
+                                    r["after_plan_error"] = json!(e);
+                                }
+                                Ok(batches) => {
+                                    let mut seen = vec![false; exp.len()];
+                                    let mut bad = false;
+                                    for b in &batches {
+                                        for i in 0..b.num_rows() {
+                                            let key: Result<Vec<i64>, String> = (0..4).map(|cc| ast::code_at(b.column(cc), i, env_udf)).collect();
+                                            let Some(row) = key.ok().and_then(|k| keymap.get(&k).copied()) else {
+                                                bad = true;
+                                                continue;
+                                            };
+                                            if seen[row] {
+                                                bad = true;
+                                            }
+                                            seen[row] = true;
+                                            if !is_filter {
+                                                st.rows_compared += 1;
+                                                let a = ast::code_at(b.column(4), i, env_udf);
+                                                match (&cb[row], a) {
+                                                    (Ok((bv, bt)), Ok(av)) => {
+                                                        if av != *bv || b.column(4).data_type() != bt {
+                                                            diff_rows.push(json!([row + 1, ast::show_code(*bv, env_udf), if b.column(4).data_type() != bt { "TYPE".to_string() } else { ast::show_code(av, env_udf) }]));
+                                                        }
+                                                    }
+                                                    (Ok((bv, _)), Err(_)) => diff_rows.push(json!([row + 1, ast::show_code(*bv, env_udf), "ERROR"])),
+                                                    _ => {}
+                                                }
+                                            }
+                                        }
+                                    }
+                                    for row in 0..exp.len() {
+                                        if let Ok((bv, _)) = &cb[row] {
+                                            let want = if is_filter { *bv == 1 } else { true };
+                                            if is_filter {
+                                                st.rows_compared += 1;
+                                            }
+                                            if want != seen[row] {
+                                                diff_rows.push(json!([row + 1, ast::show_code(*bv, env_udf), if seen[row] { "ROW-KEPT" } else { "ROW-MISSING" }]));
+                                            }
+                                        }
+                                    }
+                                    if bad {
+                                        diff_rows.push(json!([0, "-", "UNKNOWN-OR-DUPLICATE-ROW"]));
+                                    }
+                                }
+                            }
+                            if !diff_rows.is_empty() {
+                                r["engine_diff_count"] = json!(diff_rows.len());
+                                r["engine_diffs"] = json!(diff_rows.iter().take(5).map(|d| json!({"table_row": d[0], "before": d[1], "after": d[2]})).collect::<Vec<_>>());
+                                r["engine_diff_rows"] = json!(diff_rows);
+                            }
+                            results.push(r);
+                        }
+                    }
+                    if let Ok(Ok(pb)) = pb_full {
                         st.physical += 1;
                         let evid = format!("{}-{}-phys", c["p"], c["id"]);
                         let ps = catch_unwind(AssertUnwindSafe(|| PhysicalExprSimplifier::new(schema.as_ref()).simplify(Arc::clone(&pb))));
@@ -510,15 +658,22 @@ pub fn main() {
                                 let cb = engine_column(&pb, &full[tname], env_udf);
                                 let ca = engine_column(&pa, &full[tname], env_udf);
                                 let mut diffs = vec![];
+                                let mut diff_rows: Vec<Value> = vec![];
                                 for row in 0..exp.len() {
                                     if exp[row] == env_udf.errcode {
                                         continue;
                                     }
                                     st.rows_compared += 1;
                                     match (&cb[row], &ca[row]) {
-                                        (Ok((b, bt)), Ok((a, at))) if a != b || at != bt => diffs.push(json!({"table_row": row + 1, "before": ast::show_code(*b, env_udf),
-                                            "after": ast::show_code(*a, env_udf), "before_type": bt.to_string(), "after_type": at.to_string()})),
-                                        (Ok((b, _)), Err(e)) => diffs.push(json!({"table_row": row + 1, "before": ast::show_code(*b, env_udf), "after_error": e})),
+                                        (Ok((b, bt)), Ok((a, at))) if a != b || at != bt => {
+                                            diff_rows.push(json!([row + 1, ast::show_code(*b, env_udf), if at != bt { "TYPE".to_string() } else { ast::show_code(*a, env_udf) }]));
+                                            diffs.push(json!({"table_row": row + 1, "before": ast::show_code(*b, env_udf),
+                                            "after": ast::show_code(*a, env_udf), "before_type": bt.to_string(), "after_type": at.to_string()}))
+                                        }
+                                        (Ok((b, _)), Err(e)) => {
+                                            diff_rows.push(json!([row + 1, ast::show_code(*b, env_udf), "ERROR"]));
+                                            diffs.push(json!({"table_row": row + 1, "before": ast::show_code(*b, env_udf), "after_error": e}))
+                                        }
                                         _ => {}
                                     }
                                 }
@@ -526,6 +681,7 @@ pub fn main() {
                                     r["engine_diff_count"] = json!(diffs.len());
                                     diffs.truncate(5);
                                     r["engine_diffs"] = json!(diffs);
+                                    r["engine_diff_rows"] = json!(diff_rows);
                                 }
                             }
                             Ok(Err(e)) => {
@@ -559,11 +715,16 @@ pub fn main() {
         tot.simplify_errors += st.simplify_errors;
         tot.physical += st.physical;
         tot.physical_changed += st.physical_changed;
+        tot.predicates += st.predicates;
+        tot.predicates_changed += st.predicates_changed;
+        tot.dataframe += st.dataframe;
     }
     util::write_ndjson(&out, &results);
     util::write_ndjson(&trace, &events);
     util::summary(json!({"cases": cases.len(), "simplifications": tot.simplifications, "changed": tot.changed, "events_for_tlc": tot.ast_ok,
                          "outside_ast_fallback": tot.fallback, "rows_compared_in_engine": tot.rows_compared,
                          "before_engine_vs_reference_rows": tot.before_engine_vs_reference, "simplify_errors": tot.simplify_errors,
-                         "physical_simplifications": tot.physical, "physical_changed": tot.physical_changed}));
+                         "physical_simplifications": tot.physical, "physical_changed": tot.physical_changed,
+                         "simplify_predicates_calls": tot.predicates, "simplify_predicates_changed": tot.predicates_changed,
+                         "dataframe_executions": tot.dataframe}));
 }
